@@ -211,6 +211,8 @@ def frame_pack_len(self, l):
     require(wf(self))
     if not is_int(l):
         throw(TypeError)
+    if Or(l < -(1 << 63), l >= (1 << 63)):
+        throw(OverflowError)        # a length that is not a machine-size integer cannot be honoured either
     if l < 0:
         throw(ValueError)
     require(l <= WMAX // 8 + 2, "length within the verified bound")
